@@ -131,10 +131,34 @@ fn record(p: &Prog, which: u32, out: &mut Out) {
         out.stat("programs_without_answers");
     }
     out.push(p.line_f(fuel), line, fail, nt);
+    if which == 16 {
+        // STATE-LEVEL correspondence: the same program run raw (the states its body goal produces, before
+        // labelling and reification); of every delivered state the substitution of every program variable, the
+        // finite-domain store and the constraint store are dumped and compared with the model's state — the
+        // objects the global theorems (Sem, WFS, Inv) speak about
+        let d = Prog { nq: p.nvars, raw: true, take: 0, ..p.clone() };
+        let dump = run_raw_dump(&d, 3_000_000);
+        let t = last_ticks();
+        let fuel = if dump.ends_with("BUDGET") { 1500 } else { 4 * t + 200 };
+        out.stat("state_dumps");
+        if dump.contains("C[") && !dump.contains("C[]") {
+            out.stat("state_dumps_with_pending_constraints");
+        }
+        out.push(d.line_f(fuel).replacen(" raw", " rst", 1), dump, None, true);
+    }
 }
 
 pub fn replay(line: &str, which: u32, out: &mut Out) {
-    record(&Prog::parse(line), which, out);
+    let p = Prog::parse(line);
+    if line.split_whitespace().nth(4).map(|f| f.starts_with("rst")).unwrap_or(false) {
+        // a state-dump case: replay the dump alone
+        let dump = run_raw_dump(&p, 3_000_000);
+        let t = last_ticks();
+        let fuel = if dump.ends_with("BUDGET") { 1500 } else { 4 * t + 200 };
+        out.push(p.line_f(fuel).replacen(" raw", " rst", 1), dump, None, true);
+        return;
+    }
+    record(&p, which, out);
 }
 
 pub fn gen_prog(r: &mut Rng) -> Prog {
